@@ -367,9 +367,13 @@ theorem getRoot_sound (H : Heap merge t d h)
   · rename_i hie
     have hne : idxs ≠ [] := by intro e; subst e; simp at hie
     split at hg
+    case isTrue => cases hg
+    split at hg
     · cases hg
     · cases hg
     · rename_i st hrun
+      split at hg
+      case isTrue => cases hg
       split at hg
       case h_2 => cases hg
       rename_i rt hroot
@@ -669,10 +673,11 @@ theorem levels_sound_coupled (H : Heap merge t d h)
       pbLevels t.nodes k idxs acc = some accF → grLevels merge pn k idxs st = .ok st' →
       st.ptrs = acc.map List.length → Ext acc pn → Asc idxs →
       (∀ y ∈ idxs, 2 ^ k ≤ y ∧ y < 2 ^ (k + 1)) → k < d →
-      AMap.get st'.v 1 = some (h 1) → Ext accF pn
-  | 0, idxs, acc, accF, st, st', hpb, _, _, hext, _, _, _, _ => by
+      AMap.get st'.v 1 = some (h 1) → st'.ptrs = accF.map List.length ∧ Ext accF pn
+  | 0, idxs, acc, accF, st, st', hpb, hgr, hp, hext, _, _, _, _ => by
     simp only [pbLevels, Option.some.injEq] at hpb
-    subst hpb; exact hext
+    simp only [grLevels, Res.ok.injEq] at hgr
+    subst hpb hgr; exact ⟨hp, hext⟩
   | k + 1, idxs, acc, accF, st, st', hpb, hgr, hp, hext, hs, hrg, hk, hroot => by
     unfold pbLevels at hpb
     unfold grLevels at hgr
@@ -708,7 +713,8 @@ theorem getRoot_run (p : BatchProof D) (idxs : List Nat) (lv : List D) (root : D
     idxs ≠ [] ∧ ∃ imap r st, mapIndexes idxs p.depth = .ok imap ∧
       (normalize idxs).length = p.nodes.length ∧
       grFirst merge imap lv p.nodes (pow2usize p.depth) 0 (normalize idxs) [] [] = .ok r ∧
-      grLevels merge p.nodes (p.depth - 1) r.2 r.1 = .ok st ∧ AMap.get st.v 1 = some root := by
+      grLevels merge p.nodes (p.depth - 1) r.2 r.1 = .ok st ∧ AMap.get st.v 1 = some root ∧
+      st.ptrs = p.nodes.map List.length ∧ idxs.length = lv.length := by
   unfold BatchProof.getRoot at hg
   split at hg
   · cases hg
@@ -716,9 +722,19 @@ theorem getRoot_run (p : BatchProof D) (idxs : List Nat) (lv : List D) (root : D
     have hne : idxs ≠ [] := by intro e; subst e; simp at hie
     refine ⟨hne, ?_⟩
     split at hg
+    case isTrue => cases hg
+    rename_i hlv
+    have hlv' : idxs.length = lv.length := by simpa using hlv
+    split at hg
     · cases hg
     · cases hg
     · rename_i st hrun
+      split at hg
+      case isTrue => cases hg
+      rename_i hused
+      have hptrs : st.ptrs = p.nodes.map List.length :=
+        unusedNodes_false_eq st.ptrs p.nodes (grRun_ptrs_length merge p idxs lv st hrun)
+          (by simpa using hused)
       split at hg
       case h_2 => cases hg
       rename_i rt hroot
@@ -736,7 +752,7 @@ theorem getRoot_run (p : BatchProof D) (idxs : List Nat) (lv : List D) (root : D
           · cases hrun
           · cases hrun
           · rename_i r hfirst
-            exact ⟨imap, r, st, hmap, by simpa using hlen, hfirst, hrun, hroot⟩
+            exact ⟨imap, r, st, hmap, by simpa using hlen, hfirst, hrun, hroot, hptrs, hlv'⟩
 
 theorem grPair_shape (idxs : List Nat) (imap : AMap Nat)
     (G : ∀ x j, AMap.get imap x = some j ↔ idxs[j]? = some x) (lv : List D) (pn : List (List D))
@@ -869,17 +885,41 @@ theorem grFirst_sound_nodes (H : Heap merge t d h)
           have := ih2 k x hk
           rwa [show i + 1 + k = i + (k + 1) by omega] at this
 
-/-- an accepted batch proof contains, vector by vector, the proof `prove_batch` returns as a
-    prefix: every node `get_root` reads is the tree's node (what follows is never read) -/
+/-- vectors that extend each other position by position and have the same lengths are equal -/
+theorem ext_eq_of_lengths (a b : List (List D)) (hl : a.length = b.length) (hext : Ext a b)
+    (hlen : a.map List.length = b.map List.length) : a = b := by
+  apply List.ext_getElem?
+  intro i
+  by_cases hi : i < a.length
+  · obtain ⟨x, hx⟩ : ∃ x, a[i]? = some x := ⟨a[i], by simp [hi]⟩
+    obtain ⟨y, hy, hpre⟩ := hext i x hx
+    have h1 : (a.map List.length)[i]? = some x.length := by rw [List.getElem?_map, hx]; rfl
+    have h2 : (b.map List.length)[i]? = some y.length := by rw [List.getElem?_map, hy]; rfl
+    rw [hlen, h2] at h1
+    rw [hx, hy, hpre.eq_of_length (Option.some.inj h1).symm]
+  · rw [List.getElem?_eq_none (by omega), List.getElem?_eq_none (by omega)]
+
+/-- an accepted (leaves, proof) pair IS what `prove_batch` returns: every node `get_root` reads is
+    the tree's node, (fix f1ad895) every supplied node is read, every leaf is the tree's leaf and
+    (fix af69a4d) there is exactly one leaf per index -/
 theorem getRoot_sound_nodes [Inhabited D] (H : Heap merge t d h)
     (inj : ∀ a b c e, merge a b = merge c e → a = c ∧ b = e) (hd : d < 64)
     (p' : BatchProof D) (hp : p'.depth = d) (idxs : List Nat) (lv : List D)
     (hg : p'.getRoot merge idxs lv = .ok (h 1)) :
-    ∃ lv0 p, t.proveBatch idxs = .ok (lv0, p) ∧ p'.nodes.length = p.nodes.length ∧
-      Ext p.nodes p'.nodes := by
-  obtain ⟨hne, hnd, hrange, _⟩ := getRoot_sound H inj hd p' hp idxs lv hg
+    ∃ p, t.proveBatch idxs = .ok (lv, p) ∧ p'.nodes.length = p.nodes.length ∧
+      Ext p.nodes p'.nodes ∧ p' = p := by
+  obtain ⟨hne, hnd, hrange, hleaves⟩ := getRoot_sound H inj hd p' hp idxs lv hg
   obtain ⟨p, hpb, hdep, hlenp, _, _, hlev⟩ := proveBatch_getRoot H hd idxs hne hnd hrange
-  obtain ⟨_, imap', r, st, hmap', hlen, hfirst, hrun, hroot⟩ := getRoot_run p' idxs lv (h 1) hg
+  obtain ⟨_, imap', r, st, hmap', hlen, hfirst, hrun, hroot, hptrs', hlv⟩ :=
+    getRoot_run p' idxs lv (h 1) hg
+  have hlveq : idxs.map (fun i => h (2 ^ d + i)) = lv := by
+    apply List.ext_getElem?
+    intro j
+    by_cases hj : j < idxs.length
+    · obtain ⟨i, hi⟩ : ∃ i, idxs[j]? = some i := ⟨idxs[j], by simp [hj]⟩
+      rw [hleaves j i hi, List.getElem?_map, hi]; rfl
+    · rw [List.getElem?_eq_none (by simp; omega), List.getElem?_eq_none (by omega)]
+  rw [hlveq] at hpb
   obtain ⟨imap, hmap, _, G⟩ := mapIndexes_ok idxs d hd hnd hrange
   rw [hp] at hmap' hfirst hrun
   rw [hmap] at hmap'
@@ -933,7 +973,12 @@ theorem getRoot_sound_nodes [Inhabited D] (H : Heap merge t d h)
   rw [hnx] at hrun hasc hrg
   have hfinal := levels_sound_coupled H inj p'.nodes (d - 1) _ _ p.nodes r.1 st hlev hrun
     (by rw [hptr, List.map_map]; rfl) hext0 hasc hrg (by have := H.dpos; omega) hroot
-  exact ⟨_, p, hpb, by omega, hfinal⟩
+  have hnodes : p.nodes = p'.nodes :=
+    ext_eq_of_lengths p.nodes p'.nodes (by omega) hfinal.2 (by rw [← hfinal.1, hptrs'])
+  refine ⟨p, hpb, by omega, hfinal.2, ?_⟩
+  cases p; cases p'
+  simp only [BatchProof.mk.injEq] at hnodes hp hdep ⊢
+  exact ⟨hnodes.symm, by omega⟩
 
 end sound
 end Wf.Merkle
